@@ -36,7 +36,8 @@ RULE = (
     "prints the same header followed by exactly what the object's inspect() prints; merge writes "
     "exactly str(mc) of MosCollection.from_files(files, allow_incomplete=-i).merge(strict=not -n) to "
     "stdout or to the -o file and returns 0/None, and returns 2 with a non-empty stderr on any error. "
-    "Non-trivial = >= 3 files with a bad/unreadable one that is not last, or a non-default option.")
+    "Non-trivial = >= 3 files with a bad/unreadable one that is not last, or a non-default option."
+    " Also: files in declared ISO-8859-1 / UTF-16, undecodable declared encodings, members with a blank / non-numeric messageID, file names with shell metacharacters (and matching siblings), names starting with '@', '+', '#', '~', '.', relative paths, ENOTDIR / ENAMETOOLONG.")
 ASSUMPTIONS = ['the S3 options (-b/-p/-s/-k) run against the fake S3 of C18',
                'inspect() output of the library is the reference for the inspect command (self-consistency)']
 MANDATORY = ['non-utf8-files', 'other-OSError', 'relative-names', 'odd-file-names', 'file-listed-twice', 'detect', 'inspect', 'merge', 'detect:s3', 'inspect:s3', 'merge:s3', 'merge:shape:completed-create', 'bad-file-not-last', 'missing-path', 'directory', 'completed-ro',
